@@ -970,9 +970,11 @@ func CanaryVerdict(f CanaryFacts) (failed, paused Tri, why string) {
 		if af.MaxRestartsDuration != nil {
 			var latest time.Time
 			for _, p := range f.Pods {
-				for _, s := range p.Status.ContainerStatuses {
-					if s.RestartCount > 0 && s.LastTerminationState.Terminated != nil && s.LastTerminationState.Terminated.FinishedAt.After(latest) {
-						latest = s.LastTerminationState.Terminated.FinishedAt.Time
+				for _, lists := range [][]corev1.ContainerStatus{p.Status.ContainerStatuses, p.Status.InitContainerStatuses, p.Status.EphemeralContainerStatuses} {
+					for _, s := range lists {
+						if s.RestartCount > 0 && s.LastTerminationState.Terminated != nil && s.LastTerminationState.Terminated.FinishedAt.After(latest) {
+							latest = s.LastTerminationState.Terminated.FinishedAt.Time
+						}
 					}
 				}
 			}
